@@ -46,6 +46,14 @@ fn first_obs_diff(a: &RunOut, b: &RunOut) -> Option<(String, String)> {
     None
 }
 
+/// The reference run keeps the memory limit out of reach (its swept memory is quarantined, so the
+/// accounting means nothing). A run under the real limit may therefore end with OutOfMemory where
+/// the reference went on - legitimately, if the reference itself needed more than that limit.
+fn legit_oom(base: &RunOut, out: &RunOut) -> bool {
+    crate::ctl::vmrun::innermost(&out.result) == "OutOfMemory"
+        && out.enforced_mem_limit.map(|l| base.counters.peak_allocated > l).unwrap_or(false)
+}
+
 /// the C02-relevant violations of one run: (signature, text)
 fn c02_violations(base: &RunOut, out: &RunOut) -> Vec<(Json, String)> {
     let mut v = vec![];
@@ -61,7 +69,13 @@ fn c02_violations(base: &RunOut, out: &RunOut) -> Vec<(Json, String)> {
                 format!("panic under this collector schedule (none without collections): {} at {}", p.msg, panic_site(p)),
             ));
         }
-    } else if v.is_empty() && base.panic.is_none() && out.completed() {
+    } else if v.is_empty()
+        && base.panic.is_none()
+        && out.completed()
+        // a reference run that exhausted the memory limit is no reference: see run_case
+        && crate::ctl::vmrun::innermost(&base.result) != "OutOfMemory"
+        && !legit_oom(base, out)
+    {
         if let Some((comp, detail)) = first_obs_diff(base, out) {
             v.push((
                 json!({"inv": "observation-differs", "component": comp}),
@@ -205,6 +219,9 @@ impl Check for C02 {
         let module = gen_program(&mut wr, &cfg);
         let mj = module_json(&module);
         let phash = crate::kernel::stable_hash_json(&mj);
+        if let Some(dir) = std::env::var_os("CAOSIM_DUMP") {
+            let _ = std::fs::write(std::path::Path::new(&dir).join(format!("C02-{}.json", ctx.case)), serde_json::to_string(&mj).unwrap());
+        }
         ctx.progress("compile");
         let program = match compile_module(&module) {
             Compiled::Ok(p) => p,
@@ -225,8 +242,19 @@ impl Check for C02 {
             ctx.count("discarded_baseline_crash", 1);
             return;
         }
-        if base.result == "Timeout" {
+        if crate::ctl::vmrun::innermost(&base.result) == "Timeout" {
             ctx.count("discarded_baseline_timeout", 1);
+            return;
+        }
+        if base.counters.allocs > 20_000 {
+            // collecting at every one of that many allocation points costs minutes of CPU
+            ctx.count("discarded_too_many_allocation_points", 1);
+            return;
+        }
+        if crate::ctl::vmrun::innermost(&base.result) == "OutOfMemory" {
+            // the collection-free reference run exhausted the memory limit: where it stops depends
+            // on the placement of collections by definition (C05's business, not C02's)
+            ctx.count("discarded_baseline_out_of_memory", 1);
             return;
         }
         ctx.count(&format!("baseline_result:{}", crate::ctl::vmrun::innermost(&base.result)), 1);
